@@ -114,7 +114,8 @@ pub fn run_case(seed: u64) -> CaseResult {
 }
 
 const HNAMES: [&str; 2] = ["h1", "h2"];
-const GNAMES: [&str; 2] = ["g1", "g2"];
+// (the second generator's name contains ".spawn" and has the first one's name as its prefix)
+const GNAMES: [&str; 2] = ["g1", "g1.spawner"];
 const CNAMES: [&str; 2] = ["c1", "c2"];
 
 struct Hist {
